@@ -134,7 +134,24 @@ func (g *gen) genLocalProto(p *pkgInfo, path string) {
 			case y < 36:
 				body = append(body, fmt.Sprintf("  optional %s %s = %d;", typ, fname, num))
 			default:
-				body = append(body, fmt.Sprintf("  %s %s = %d;", typ, fname, num))
+				opt := ""
+				if r.chance(35) {
+					// custom options in hand-written files are dynamic messages for the printer;
+					// bodies with several populated fields exercise their field order
+					switch typ {
+					case "string":
+						opt = fmt.Sprintf(" [(buf.validate.field) = {required: true, string: {min_len: %d, max_len: %d}}]", r.between(1, 3), r.between(10, 40))
+					case "int32", "int64", "uint32", "uint64", "sint32":
+						opt = fmt.Sprintf(" [(buf.validate.field) = {required: true, %s: {gte: %d, lte: %d}}]", typ, r.between(1, 5), r.between(50, 500))
+					case "bool":
+						opt = " [(buf.validate.field) = {required: true, bool: {const: true}}]"
+					}
+					if opt != "" {
+						addImport("buf/validate/validate.proto")
+						g.feat("proto_field_option_body")
+					}
+				}
+				body = append(body, fmt.Sprintf("  %s %s = %d%s;", typ, fname, num, opt))
 			}
 			num++
 		}
@@ -146,11 +163,20 @@ func (g *gen) genLocalProto(p *pkgInfo, path string) {
 			num++
 			body = append(body, "  }")
 		}
-		if r.chance(25) {
-			body = append(body, "  message Inner {")
+		if r.chance(35) {
+			inner := "Inner"
+			var siblings []*typeInfo
+			siblings = append(siblings, sameJ5s...)
+			siblings = append(siblings, samePkgProto...)
+			if len(siblings) > 0 && r.chance(50) {
+				// legal in proto (pkg.Outer.X vs pkg.X) and a classic source of "first/last one wins"
+				inner = siblings[r.intn(len(siblings))].name
+				g.feat("proto_nested_name_equals_sibling_toplevel")
+			}
+			body = append(body, "  message "+inner+" {")
 			body = append(body, "    string value = 1;")
 			body = append(body, "  }")
-			body = append(body, fmt.Sprintf("  Inner %s = %d;", snake(g.fieldName(names)), num))
+			body = append(body, fmt.Sprintf("  %s %s = %d;", inner, snake(g.fieldName(names)), num))
 			num++
 		}
 		body = append(body, "}")
@@ -283,6 +309,40 @@ func (g *gen) genDepPackage(p *pkgInfo) {
 				}
 				if r.chance(20) {
 					fld.Label = descriptorpb.FieldDescriptorProto_LABEL_REPEATED.Enum()
+				}
+				md.Field = append(md.Field, fld)
+			}
+			if r.chance(35) {
+				inner := "Detail"
+				var siblings []*typeInfo
+				for _, t := range g.types {
+					if t.pkg == p && t.file != path {
+						siblings = append(siblings, t)
+					}
+				}
+				asEnum := false
+				if len(siblings) > 0 && r.chance(60) {
+					sib := siblings[r.intn(len(siblings))]
+					inner = sib.name
+					asEnum = sib.kind == kEnum
+					g.feat("dep_nested_name_equals_sibling_toplevel")
+				}
+				fld := &descriptorpb.FieldDescriptorProto{
+					Name: proto.String("detail_value"), Number: proto.Int32(int32(len(md.Field) + 1)),
+					Label: descriptorpb.FieldDescriptorProto_LABEL_OPTIONAL.Enum(), JsonName: proto.String("detailValue"),
+					TypeName: proto.String("." + p.name + "." + name + "." + inner),
+				}
+				if asEnum {
+					md.EnumType = append(md.EnumType, &descriptorpb.EnumDescriptorProto{Name: proto.String(inner), Value: []*descriptorpb.EnumValueDescriptorProto{
+						{Name: proto.String(upperSnake(name+inner) + "_UNSPECIFIED"), Number: proto.Int32(0)},
+						{Name: proto.String(upperSnake(name+inner) + "_ONE"), Number: proto.Int32(1)},
+					}})
+					fld.Type = descriptorpb.FieldDescriptorProto_TYPE_ENUM.Enum()
+				} else {
+					md.NestedType = append(md.NestedType, &descriptorpb.DescriptorProto{Name: proto.String(inner), Field: []*descriptorpb.FieldDescriptorProto{{
+						Name: proto.String("value"), Number: proto.Int32(1), Type: descriptorpb.FieldDescriptorProto_TYPE_STRING.Enum(),
+						Label: descriptorpb.FieldDescriptorProto_LABEL_OPTIONAL.Enum(), JsonName: proto.String("value")}}})
+					fld.Type = descriptorpb.FieldDescriptorProto_TYPE_MESSAGE.Enum()
 				}
 				md.Field = append(md.Field, fld)
 			}
